@@ -290,13 +290,24 @@ func run(c Case) (res vh.Result) {
 		if sawDeployed {
 			return fail("destination-reported", "DEPLOY failed for a critical task (%s) yet the environment was listed as DEPLOYED meanwhile", faults(c))
 		}
-		// the environment is gone or in ERROR
-		if envs, e := w.Envs(); e == nil {
-			for _, e := range envs {
-				if e.GetRootRole() == wfName && e.GetState() != "ERROR" && e.GetState() != "DONE" {
-					return fail("failed-create-left-healthy-env", "creation failed but environment %s is still listed in state %s", e.GetId(), e.GetState())
+		// the environment is gone or in ERROR (the clean-up of a failed creation may still be finishing when the request returns)
+		deadline := time.Now().Add(8 * time.Second)
+		for {
+			left := ""
+			if envs, e := w.Envs(); e == nil {
+				for _, e := range envs {
+					if e.GetRootRole() == wfName && e.GetState() != "ERROR" && e.GetState() != "DONE" {
+						left = fmt.Sprintf("creation failed but environment %s is still listed in state %s", e.GetId(), e.GetState())
+					}
 				}
 			}
+			if left == "" {
+				break
+			}
+			if time.Now().After(deadline) {
+				return fail("failed-create-left-healthy-env", "%s", left)
+			}
+			time.Sleep(50 * time.Millisecond)
 		}
 		return
 	}
